@@ -450,12 +450,55 @@ PreviousBucket(Bucket **current, Bucket *first)
     return result;
 }
 
+#ifdef BTREES_VERIF
+/* Verification hook, compiled in only with -DBTREES_VERIF=1: make the n-th
+ * following call of BTree_Malloc/BTree_Realloc fail (see _verif_fail_alloc_after).
+ */
+static long verif_alloc_countdown = -1;     /* < 0: disarmed */
+static long verif_alloc_calls = 0;          /* calls since the hook was last armed */
+
+static int
+verif_alloc_should_fail(void)
+{
+    verif_alloc_calls++;
+    if (verif_alloc_countdown < 0)
+        return 0;
+    if (verif_alloc_countdown == 0)
+    {
+        verif_alloc_countdown = -1;
+        return 1;
+    }
+    verif_alloc_countdown--;
+    return 0;
+}
+
+static PyObject *
+verif_fail_alloc_after(PyObject *ignored, PyObject *args)
+{
+    long n;
+    long calls = verif_alloc_calls;
+
+    if (!PyArg_ParseTuple(args, "l", &n))
+        return NULL;
+    verif_alloc_countdown = n;
+    verif_alloc_calls = 0;
+    return PyLong_FromLong(calls);
+}
+#endif
+
 static void *
 BTree_Malloc(size_t sz)
 {
     void *r;
 
     ASSERT(sz > 0, "non-positive size malloc", NULL);
+#ifdef BTREES_VERIF
+    if (verif_alloc_should_fail())
+    {
+        PyErr_NoMemory();
+        return NULL;
+    }
+#endif
 
     r = malloc(sz);
     if (r)
@@ -471,6 +514,13 @@ BTree_Realloc(void *p, size_t sz)
     void *r;
 
     ASSERT(sz > 0, "non-positive size realloc", NULL);
+#ifdef BTREES_VERIF
+    if (verif_alloc_should_fail())
+    {
+        PyErr_NoMemory();
+        return NULL;
+    }
+#endif
 
     if (p)
         r = realloc(p, sz);
@@ -544,6 +594,13 @@ static struct PyMethodDef module_methods[] = {
    "\n"
    "Each element of seq must be an integer set, or convertible to one\n"
    "via the set iteration protocol.  The union returned is an IISet."
+  },
+#endif
+#ifdef BTREES_VERIF
+  {"_verif_fail_alloc_after", (PyCFunction) verif_fail_alloc_after, METH_VARARGS,
+   "_verif_fail_alloc_after(n)\n"
+   "make the n-th (0-based) following BTree_Malloc/BTree_Realloc call fail;\n"
+   "n < 0 disarms.  Returns the number of calls since the previous arming."
   },
 #endif
   {NULL,                NULL}           /* sentinel */
